@@ -470,6 +470,11 @@ impl<'a> GeneratorState<'a> {
             Expr::Integer(i) => Ok(ExprType::Immediate(*i)),
             Expr::BinOp { lhs, op, rhs } => match op {
                 Operation::Assign => {
+                    if let Expr::Addr(_) = **lhs {
+                        return Err(self
+                            .compiler_state
+                            .syntax_error("The address of a variable is not assignable", pos));
+                    }
                     let left = self.generate_expr(lhs, pos, high_byte, high_byte)?;
                     let right = self.generate_expr(rhs, pos, high_byte, high_byte)?;
                     let ret = self.generate_assign(&left, &right, pos, high_byte);
